@@ -168,6 +168,10 @@ def tasks(tier):
     # a wrapper put on an existing spawn whose terminal still echoes (the constructor has to switch that off first)
     for first in ('one', 'incomplete', 'twoline'):
         out.append(dict(kind='model', first=first, tier=tier, echo=True))
+    # maxread equal to the length of the first command's whole response (output + prompt): undivided, it arrives
+    # as exactly one *full* read, which looks like the middle of a burst
+    for first in ('one', 'three', 'twoline'):
+        out.append(dict(kind='model', first=first, tier=tier, fullread=True))
     for i in range(4):
         out.append(dict(kind='real-bash', part=i, parts=4, tier=tier))
     for i in range(4):
@@ -175,7 +179,7 @@ def tasks(tier):
     return out
 
 
-def run_case(ch, seq, maxcuts=2, use_aio=False, echo_on=False):
+def run_case(ch, seq, maxcuts=2, use_aio=False, echo_on=False, maxread=2000):
     E.install()
     loop = None
     if use_aio:
@@ -188,7 +192,7 @@ def run_case(ch, seq, maxcuts=2, use_aio=False, echo_on=False):
     viol = None
     obs = {'results': []}
     try:
-        sp = E.pty_spawn(env, encoding='utf-8', echo=echo_on, timeout=5, spawn_kw=dict(raw=True, echo=echo_on))
+        sp = E.pty_spawn(env, encoding='utf-8', echo=echo_on, timeout=5, maxread=maxread, spawn_kw=dict(raw=True, echo=echo_on))
         box['sp'] = sp
         sp.delaybeforesend = None
         if echo_on:
@@ -340,6 +344,12 @@ def run_real(task, acc, only_seq=None):
                 break
 
 
+def task_maxread(task):
+    if not task.get('fullread'):
+        return 2000
+    return len(COMMANDS[task['first']][1]) + len(replwrap.PEXPECT_PROMPT)
+
+
 def run_task(task):
     acc = Acc()
     if task['kind'] in ('real-bash', 'real-python'):
@@ -357,7 +367,7 @@ def run_task(task):
             big = 'big300k' in seq
 
             def run(ch):
-                return run_case(ch, seq, maxcuts=1 if big else 2, use_aio=bool(task.get('aio')), echo_on=bool(task.get('echo')))
+                return run_case(ch, seq, maxcuts=1 if big else 2, use_aio=bool(task.get('aio')), echo_on=bool(task.get('echo')), maxread=task_maxread(task))
             for ch, (obs, viol) in dfs(run):
                 acc.execs += 1
                 acc.transitions += len(seq)
@@ -407,7 +417,7 @@ def replay(spec):
                 out['violation'] = {'key': k, 'msg': v[0]['msg']}
         return out
     seq = tuple(spec['seq'])
-    obs, viol = run_case(Chooser(spec['choices']), seq, maxcuts=1 if 'big300k' in seq else 2, use_aio=bool(task.get('aio')), echo_on=bool(task.get('echo')))
+    obs, viol = run_case(Chooser(spec['choices']), seq, maxcuts=1 if 'big300k' in seq else 2, use_aio=bool(task.get('aio')), echo_on=bool(task.get('echo')), maxread=task_maxread(task))
     out['observation'] = obs
     if viol:
         out['violation'] = {'key': 'model%s%s:%s:%s' % ('-awaited' if task.get('aio') else '', '-echo-on' if task.get('echo') else '', seq[len(obs['results']) - 1] if obs.get('results') else seq[0], viol[0]), 'msg': viol[1]}
